@@ -10,7 +10,7 @@ META = {
         "xstream_create: the stage functions of other modules (local memory pools, root ULT, root pool, main-scheduler ULT, native thread) are stubs that acquire/release a counted resource or fail; the ladder itself and the rank bookkeeping are the real code",
         "ABT_timer_create is excluded (its descriptor cache makes the second call allocation-free)",
     ],
-    "outside": ["ABT_init's cross-stage interactions", "ABT_thread_create / ABT_task_create / scheduler and pool creation (memory-pool layer; see DESIGN.md)", "failures inside glibc's pthread_*_init other than pthread_barrier_init", "mmap partial failures"],
+    "outside": ["ABT_init's cross-stage interactions", "scheduler and pool creation", "failures inside glibc's pthread_*_init other than pthread_barrier_init", "mmap partial failures"],
 }
 SPIN = ["ABTD_spinlock_acquire.0", "ABTD_spinlock_acquire.1"]
 NAMES = ["ABT_mutex_create", "ABT_mutex_create_with_attr", "ABT_mutex_attr_create", "ABT_cond_create", "ABT_barrier_create", "ABT_eventual_create", "ABT_future_create", "ABT_rwlock_create", "ABT_key_create",
@@ -26,8 +26,11 @@ def obligations(tier):
                      defs=["WHICH=%d" % w] + (["MULTI"] if w in (5, 6, 11) else []), unwind=3, cut_loops=SPIN, object_bits=10, backend="cadical", encodes=[nm, nm.replace("_create", "_free").replace("_with_attr", "")],
                      bounds="every allocation request of one call (1..3)", symbolic="failing request index, size arguments"))
     C17 = importlib.import_module("props.C17")
-    o += [x for x in C17.obligations(tier) if x.name == "xstream_create_ladder"]
-    C14 = importlib.import_module("props.C14")
+    o += [x for x in C17.obligations(tier) if x.name in ("xstream_create_ladder", "main_sched_other_stream")]
+    C15 = importlib.import_module("props.C15")
+    o += [x for x in C15.obligations(tier) if x.name.startswith("mempool_take") or x.name == "mempool_local_alloc"]
+    C13 = importlib.import_module("props.C13")
+    o += [x for x in C13.obligations(tier) if x.name == "handle_request"]
     return o
 
 MANIFEST_ENTRY = {
